@@ -184,13 +184,13 @@ theorem fappend_of_seam {l r : List Node} (hl : fnorm l = true) (hr : fnorm r = 
 
 theorem run_split {d : Dfa} {a b c : List TypeId} {q : Nat} (h : d.run 0 (a ++ b ++ c) = some q) :
     ∃ q0 q1, d.run 0 a = some q0 ∧ d.run q0 b = some q1 ∧ d.run q1 c = some q := by
-  rw [List.append_assoc, Dfa.run_append] at h
+  rw [List.append_assoc, Dfa.run_append_sv] at h
   cases h0 : d.run 0 a with
   | none => rw [h0] at h; simp at h
   | some q0 =>
     rw [h0] at h
     simp only [Option.bind_some] at h
-    rw [Dfa.run_append] at h
+    rw [Dfa.run_append_sv] at h
     cases h1 : d.run q0 b with
     | none => rw [h1] at h; simp at h
     | some q1 =>
